@@ -20,8 +20,8 @@ fn doc_assumptions() -> Vec<String> {
 
 fn doc_bound(tier: Tier) -> String {
     match tier {
-        Tier::Quick => "token strings L<=3 over 31 tokens (incl. links to the empty url, `..` and `/`); block forests <=3 nodes (style variants + front-matter <=2 nodes, nesting <=2); inline atoms k<=1 in 6 hosts; 8 container kinds with 1..=5 blocks inside and 0..=2 behind".into(),
-        Tier::Thorough => "token strings L<=4 over 31 tokens (incl. links to the empty url, `..` and `/`); block forests <=4 nodes (style variants + front-matter <=3 nodes, nesting <=3); inline atom sequences k<=2 (spaced and glued) in 6 hosts; 8 container kinds with 1..=5 blocks inside and 0..=2 behind".into(),
+        Tier::Quick => "token strings L<=3 over 31 tokens (incl. links to the empty url, `..` and `/`); block forests <=3 nodes (style variants + front-matter <=2 nodes, nesting <=2); inline atoms k<=1 in 6 hosts; 8 container kinds with 1..=5 blocks inside and 0..=2 behind; runs of 2..=4 adjacent blocks of one kind (11 kinds, at the top / in an item / in a quote); link destinations over every multi-byte alignment within 16 bytes".into(),
+        Tier::Thorough => "token strings L<=4 over 31 tokens (incl. links to the empty url, `..` and `/`); block forests <=4 nodes (style variants + front-matter <=3 nodes, nesting <=3); inline atom sequences k<=2 (spaced and glued) in 6 hosts; 8 container kinds with 1..=5 blocks inside and 0..=2 behind; runs of 2..=4 adjacent blocks of one kind (11 kinds, at the top / in an item / in a quote); link destinations over every multi-byte alignment within 16 bytes".into(),
     }
 }
 
@@ -605,6 +605,7 @@ impl Engine for C07 {
         let ns: &[usize] = if thorough { &[8, 9, 10, 11, 12, 98, 99, 100, 101, 999, 1000, 1001] } else { &[8, 9, 10, 11, 12, 98, 99, 100, 101] };
         space::ordered_list_docs(ns, emit);
         space::wide_container_docs(emit);
+        space::sibling_run_docs(emit);
         if thorough {
             space::block_docs(5, 3, 4, false, emit);
             space::block_docs(4, 3, 4, true, emit);
